@@ -163,25 +163,32 @@ def rulePushValueToCsrMemory (n : Node) (memOut : AMap MemLoc) (regOut : AMap Re
     | _ => memOut
   | none => memOut
 
-def ruleKnownValuesToStack (memOut : AMap MemLoc) (inn : AMap Reg) : AMap MemLoc :=
-  memOut.foldl (fun acc p => match p.2 with
-    | .rs reg off =>
-      match AMap.get inn reg with
-      | some (.const x) => AMap.insert acc p.1 (.const (x + off))
-      | some (.ors r2 off3) => AMap.insert acc p.1 (.ors r2 (off3 + off))
-      | _ => acc
-    | _ => acc) memOut
+/-- one step of `rule_known_values_to_stack` -/
+def knownStep (inn : AMap Reg) (acc : AMap MemLoc) (p : MemLoc × AVal) : AMap MemLoc :=
+  match p.2 with
+  | .rs reg off =>
+    match AMap.get inn reg with
+    | some (.const x) => AMap.insert acc p.1 (.const (x + off))
+    | some (.ors r2 off3) => AMap.insert acc p.1 (.ors r2 (off3 + off))
+    | _ => acc
+  | _ => acc
 
-/-- `rule_forget_overwritten_registers` -/
-def ruleForgetOverwritten (cn : CNode) (memOut : AMap MemLoc) : AMap MemLoc :=
+def ruleKnownValuesToStack (memOut : AMap MemLoc) (inn : AMap Reg) : AMap MemLoc :=
+  memOut.foldl (knownStep inn) memOut
+
+/-- the registers a node overwrites, as `rule_forget_overwritten_registers` computes them -/
+def ovSet (cn : CNode) : RegSet :=
   let n := cn.node
   let ov0 := n.killReg
   let ov1 := if n.callsTo.isSome then ov0 ||| returnAddrSet else ov0
-  let ov := match ecallSignature cn with
-    | some (_, rets) => ov1 ||| rets
-    | none => if n.isEcall && (knownEcall cn).isNone then ov1 ||| RegSet.ofList [10, 11] else ov1
+  match ecallSignature cn with
+  | some (_, rets) => ov1 ||| rets
+  | none => if n.isEcall && (knownEcall cn).isNone then ov1 ||| RegSet.ofList [10, 11] else ov1
+
+/-- `rule_forget_overwritten_registers` -/
+def ruleForgetOverwritten (cn : CNode) (memOut : AMap MemLoc) : AMap MemLoc :=
   memOut.filter fun p => match p.2 with
-    | .rs r _ => !RegSet.mem ov r
+    | .rs r _ => !RegSet.mem (ovSet cn) r
     | _ => true
 
 /-- `reduce(&=)` over the outs of the visited predecessors; `none` when there is none. -/
@@ -321,6 +328,16 @@ def interruptHandlerNames (g : Cfg) : List (W String) :=
     | some l => addName acc ⟨l, FTok.default⟩
     | none => acc) []
 
+
+/-- the same for the memory claims: in = meet of the outs of the visited predecessors,
+    out = memory transfer of the ins -/
+def goodMemFactsB (g : Cfg) (V : List Nat) : Bool :=
+  (List.range g.nodes.size).all fun i =>
+    let cn := g.get i
+    keysNodup cn.memIn && keysNodup cn.memOut &&
+    (!V.contains i ||
+      (AMap.sameAs cn.memIn (meetOver ((cn.prevs.filter V.contains).map fun p => (g.get p).memOut)) &&
+       AMap.sameAs cn.memOut (nodeMemOut cn cn.regIn cn.memIn cn.regOut)))
 
 /-- which node and which clause of `goodFactsB` fails first (diagnostics only) -/
 def goodFactsWhy (g : Cfg) (V : List Nat) : String :=
